@@ -131,6 +131,11 @@ func checkC17(c *Ctx) {
 						return f.with("conn=tls")
 					}
 				}
+				if r, ok := fieldOf(x.Addr); ok && r.is("Conn", "state") {
+					if k, ok := stateOfConst(x.Val); ok && k == stLogout {
+						return f.with("terminated")
+					}
+				}
 			}
 			return f
 		}, func(f facts, b *ssa.BasicBlock, s int) facts { return f.with(valueEdgeFacts(b, s)...) })
@@ -169,6 +174,19 @@ func checkC17(c *Ctx) {
 			}
 			if n == 0 {
 				c.unresolvedRoot("successful return of handleStartTLS")
+			}
+			// once Conn.conn is the TLS connection, no return (error returns
+			// included) may leave the buffered reader/writer on the plaintext
+			// stream unless the connection is being terminated
+			k := 0
+			for _, ret := range returnsOf(hs) {
+				fs, reach := gf.at(ret)
+				if !reach || !fs.has("conn=tls") {
+					continue
+				}
+				k++
+				c.check(fs.has("reset:br") && fs.has("reset:bw") || fs.has("terminated"), "C17.a", fmt.Sprintf("handleStartTLS:return#%d after conn=tls", k), ret.Pos(),
+					"reader and writer are re-seated whenever the connection is marked as TLS", "a return leaves Conn.conn set to the TLS connection while the IMAP reader/writer still use the plaintext stream: canAuth() treats further plaintext commands as protected")
 			}
 		}
 		// (b) lock held across the switch: the encoder is acquired before the OK and ended only by defer
@@ -326,8 +344,65 @@ func checkC17(c *Ctx) {
 		}
 	}
 
+	// the state NewStartTLS inspects must be the greeting's: NotAuthenticated is
+	// written only by the greeting and by a successful UNAUTHENTICATE
+	ruleNotAuthWrites(c, "C17.d")
+
 	// ---- (e) ---------------------------------------------------------------
 	ruleOfferPredicates(c, "C17.e")
+	ruleCredentialsGated(c, "C17.e")
+}
+
+// ruleNotAuthWrites: every write of ConnStateNotAuthenticated into
+// Client.state (directly or through setState) is either the handling of the
+// greeting or the completion of an UNAUTHENTICATE command.
+func ruleNotAuthWrites(c *Ctx, rule string) {
+	p := c.P
+	setState := p.Func("imapclient", "Client", "setState")
+	n := 0
+	for _, fn := range p.SrcFuncs("imapclient") {
+		var gf *mustResult
+		allInstrs(fn, func(i ssa.Instruction) {
+			isWrite := false
+			switch x := i.(type) {
+			case *ssa.Store:
+				if r, ok := fieldOf(x.Addr); ok && r.is("Client", "state") {
+					if k, ok := stateOfConst(x.Val); ok && k == stNotAuth {
+						isWrite = true
+					}
+				}
+			case *ssa.Call:
+				if setState != nil && staticCallee(x) == setState {
+					if k, ok := stateOfConst(x.Call.Args[1]); ok && k == stNotAuth {
+						isWrite = true
+					}
+				}
+			}
+			if !isWrite {
+				return
+			}
+			n++
+			if gf == nil {
+				gf = mustFlow(fn, facts{}, nil, func(f facts, b *ssa.BasicBlock, s int) facts {
+					add := valueEdgeFacts(b, s)
+					for _, a := range edgeAtoms(b, s) {
+						if r, ok := loadedField(a.V); ok && r.is("Client", "greetingRecv") && a.True == -1 {
+							add = append(add, "greeting-pending")
+						}
+					}
+					return f.with(add...)
+				})
+			}
+			fs, _ := gf.at(i)
+			key := fmt.Sprintf("%s:state=NotAuthenticated#%d", fnKey(fn), countKey(c, rule, fnKey(fn)+":state=NotAuthenticated#")+1)
+			okSite := fs.has("greeting-pending") || fnKey(fn) == "(*Client).completeCommand"
+			c.check(okSite, rule, key, i.Pos(), "written while handling the greeting or on completion of a command",
+				"the client resets its state to NotAuthenticated outside the greeting/UNAUTHENTICATE handling: a PREAUTH greeting is forgotten and NewStartTLS no longer refuses it")
+		})
+	}
+	if n == 0 {
+		c.unresolvedRoot("writes of NotAuthenticated to Client.state")
+	}
 }
 
 func ruleOfferPredicates(c *Ctx, rule string) {
